@@ -175,6 +175,9 @@ func R1Bounds(c *Ctx, scope []*ssa.Function, ruleSuffix string, floor int) {
 					trivial++
 					continue
 				}
+				if !ok {
+					ok = splitOnPhi(c, loads, fn, in)
+				}
 				construct := describeIdx(in)
 				fname := FuncShort(fn)
 				pos := c.pos(in.Pos())
@@ -818,4 +821,58 @@ func (c *Ctx) inlinedAt(pkgPath, file string, line, col int) bool {
 		})
 	}
 	return found
+}
+
+// paramNonEmpty: prm is a slice/string parameter of a module function that is only called statically and every
+// call site passes a value whose length is provably >= 1 there (e.g. after `if len(buf) == 0 { return }`).
+func (c *Ctx) paramNonEmpty(prm *ssa.Parameter) bool {
+	if c.nonEmpty == nil {
+		c.nonEmpty = map[*ssa.Parameter]int{}
+	}
+	switch c.nonEmpty[prm] {
+	case 1:
+		return true
+	case 2, 3:
+		return false // known false, or in progress (recursion)
+	}
+	c.nonEmpty[prm] = 3
+	res := func() bool {
+		fn := prm.Parent()
+		idx := -1
+		for i, q := range fn.Params {
+			if q == prm {
+				idx = i
+			}
+		}
+		if idx < 0 {
+			return false
+		}
+		n := c.P.CHA().Nodes[fn]
+		if n == nil || len(n.In) == 0 {
+			return false
+		}
+		for _, e := range n.In {
+			if e.Site == nil {
+				return false
+			}
+			cc := e.Site.Common()
+			if cc.StaticCallee() != fn || idx >= len(cc.Args) {
+				return false
+			}
+			caller := e.Site.Parent()
+			pr := newProver(c, heapLoadsOf(caller), caller, e.Site.Block())
+			arg := cc.Args[idx]
+			pr.lenFacts(arg)
+			if !pr.g.prove("0", lenKey(pr.canon(arg)), -1) {
+				return false
+			}
+		}
+		return true
+	}()
+	if res {
+		c.nonEmpty[prm] = 1
+	} else {
+		c.nonEmpty[prm] = 2
+	}
+	return res
 }
